@@ -126,11 +126,11 @@ macro_rules! c05_trie {
 }
 
 // smallest shapes first (|k1|=|k2|=|q|=1); everything is measured before it is called quick
-c05_trie!(c05_louds_111_keys, quick, 12, 2, 1, 1, 1, false, true);
-c05_trie!(c05_louds_111_remove, quick, 12, 2, 1, 1, 1, true, false);
-c05_trie!(c05_dblarray_111, thorough, 12, 5, 1, 1, 1, false, false);
-c05_trie!(c05_patricia_111_remove, thorough, 12, 0, 1, 1, 1, true, false);
-c05_trie!(c05_sparse_111, thorough, 12, 3, 1, 1, 1, false, false);
-c05_trie!(c05_critbit_111, thorough, 12, 4, 1, 1, 1, false, false);
-c05_trie!(c05_louds_121_keys, thorough, 12, 2, 1, 2, 1, false, true);
-c05_trie!(c05_louds_012_remove, thorough, 12, 2, 0, 1, 2, true, false);
+c05_trie!(c05_louds_111_keys, probe, 12, 2, 1, 1, 1, false, true);
+c05_trie!(c05_louds_111_remove, probe, 12, 2, 1, 1, 1, true, false);
+c05_trie!(c05_dblarray_111, probe, 12, 5, 1, 1, 1, false, false);
+c05_trie!(c05_patricia_111_remove, probe, 12, 0, 1, 1, 1, true, false);
+c05_trie!(c05_sparse_111, probe, 12, 3, 1, 1, 1, false, false);
+c05_trie!(c05_critbit_111, probe, 12, 4, 1, 1, 1, false, false);
+c05_trie!(c05_louds_121_keys, probe, 12, 2, 1, 2, 1, false, true);
+c05_trie!(c05_louds_012_remove, probe, 12, 2, 0, 1, 2, true, false);
